@@ -86,6 +86,12 @@ def run(ctx, rule="CONTROL"):
     got = {o["key"]: o["ok"] for o in sc.obligations}
     ctx.ob(rule, "minmax-kind", got.get("control_intersection|out->left@0") is False and got.get("control_intersection|out->right@1") is True, FIXTURE,
            "left end as TSK_MIN reported, right end as TSK_MIN accepted: %s" % got)
+    sc = _report.Ctx("control", "quick", 0)
+    from rules import lib_kind2
+    lib_kind2.validate_all(sc, P, lambda k, f: True, tus=[tu.key])
+    got = {o["key"]: o["ok"] for o in sc.obligations}
+    ctx.ob(rule, "validate-all", got.get("control_validate_break@0") is False and got.get("control_validate_all@0") is True, FIXTURE,
+           "break in a validating loop reported, nested-if skip accepted: %s" % {k: v for k, v in got.items() if "validate" in k})
     # Python slip lints on their own fixture
     from .pyfront import PyMod
     from rules import lib_kind3
@@ -97,5 +103,12 @@ def run(ctx, rule="CONTROL"):
             "unused_loop_variable": ["unused-loop-variable"], "where_tuple": ["where-tuple"], "where_array": [],
             "inplace_view": ["inplace-foreign"], "inplace_copy": [], "inplace_param": ["inplace-foreign"],
             "tree_reuse": ["tree-reuse"], "tree_copy": [], "set_order": ["set-order"], "sorted_set": [],
-            "or_falsy_literal": [], "repeat_loop": [], "set_sum": [], "_fill_buffer": []}
+            "or_falsy_literal": [], "repeat_loop": [], "set_sum": [], "_fill_buffer": [],
+            "set_order_local": ["set-order"], "argmax_mask": ["argmax-mask"], "argmax_mask_guarded": [],
+            "implicit_none": ["implicit-none"], "explicit_raise": [],
+            "param_override": ["param-override"], "param_default_filled": [], "raw_index": ["raw-index"], "raw_index_checked": [],
+            "try_multi": ["try-multi"], "try_single": [], "zip_domain": ["zip-domain"], "zip_same_table": [],
+            "Seq.__eq__": ["equality"], "Seq2.__eq__": [], "or_none": ["or-none"],
+            "alloc_domain": ["alloc-domain"], "alloc_domain_indexed": [],
+            "fold_dropped": ["fold-dropped"], "fold_kept": []}
     ctx.ob(rule, "py-slips", got == want, fx, "python slip lints on the fixture: %s" % got)
